@@ -4,9 +4,12 @@ C18 line-protocol driver.
   known <inp> <empty> <env>        ReplaceKnown
   orerr <inp> <e><u>  <env>        ReplaceOrErr(errOnEmpty=e, errOnUnknown=u), e,u ∈ {0,1}
   func  <inp> <fid>   <env>        ReplaceFunc with harness function number fid
+  http  <bodyTmpl> <hdrTmpl> <varTmpl> <X-In> <q> <path> <secret>   end-to-end: vars middleware + static_response
+  cost  <mode> <n> <mult>          timing witness (answer is the constant `cost`)
 env = `.` or `k:v;k:v;…` (hex fields).  Answers: `ok <hex>` | `err:<class>` | `panic`.
 -/
 import CaddyModel.C18.Model
+import CaddyModel.C18.Http
 
 namespace CaddyModel.C18
 
@@ -59,6 +62,14 @@ def handle : List String → String
     match Hex.decode inp, parseEnv env, fid.toNat? >>= harnessFunc with
     | some i, some en, some f => showRes (replaceFunc i f (envOf en))
     | _, _, _ => "bad-op"
+  | ["http", body, hdr, var, x, q, path, secret] =>
+    match Hex.decode body, Hex.decode hdr, Hex.decode var, Hex.decode x, Hex.decode q, Hex.decode path, Hex.decode secret with
+    | some b, some h, some v, some x, some q, some p, some s =>
+      match serve b h v ⟨x, q, p, s, []⟩ with
+      | some (ob, oh) => "ok " ++ Hex.encode ob ++ " " ++ Hex.encode oh
+      | none => "panic"
+    | _, _, _, _, _, _, _ => "bad-op"
+  | ["cost", _, _, _] => "cost"
   | _ => "bad-op"
 
 end CaddyModel.C18
